@@ -254,12 +254,14 @@ pub fn strategy() -> impl Strategy<Value = Case> {
         3 => proptest::sample::select(p.ac_keys.clone()),
         3 => proptest::collection::vec(proptest::sample::select(letters), 1..6).prop_map(|v| v.into_iter().collect::<String>()),
         1 => proptest::sample::select(p.emoji_names.clone()),
+        // words a user may well put into the list: digits only, digits and letters, a capital, a single letter
+        1 => proptest::sample::select(vec!["786".to_string(), "71".to_string(), "2k".to_string(), "b4".to_string(), "0".to_string(), "K".to_string(), "Dr".to_string(), "x".to_string(), "w8".to_string()]),
     ];
     let sfx = prop_oneof![2 => Just(String::new()), 3 => proptest::sample::select(p.suffix_keys.clone())];
     let wrap = || proptest::collection::vec(proptest::sample::select(punct.clone()), 0..3).prop_map(|v| v.into_iter().collect::<String>());
     let wrapped = prop_oneof![3 => Just((String::new(), String::new())), 1 => (wrap(), wrap())];
     // user file: 0 = none, 1 = override/add for the word, 2 = for the base, 3 = for a bundled key that is a prefix
-    let user_kind = prop_oneof![8 => Just(0u8), 1 => Just(1u8), 1 => Just(2u8)];
+    let user_kind = prop_oneof![7 => Just(0u8), 2 => Just(1u8), 1 => Just(2u8)];
     let val = proptest::sample::select(vec!["kkk".to_string(), "Onyo".to_string(), "amader".to_string(), "ekademi".to_string(), "tOmar".to_string(), "a".to_string()]);
     (base, sfx, wrapped, 0usize..8, user_kind, val).prop_map(|(b, s, (l, t), optidx, uk, val)| {
         let word = format!("{b}{s}");
@@ -427,6 +429,20 @@ pub fn run(run: &Run) {
     if !twice.is_empty() {
         run.require_label("typed-a-twice-listed-dictionary-word", twice_typeable.max(1) as u64);
     }
+    // the user's own entry comes first whatever the word looks like: digits only, digits and letters, capitals, one letter
+    let special: Vec<(String, usize)> = ["786", "71", "2k", "b4", "0", "K", "Dr", "x", "w8", "a1", "1a", "ok"].iter().flat_map(|k| (0..8usize).map(move |o| (k.to_string(), o))).collect();
+    run.exhaustive(
+        "user-entries-for-unusual-words",
+        &special,
+        |_| mk_local(),
+        |(key, optidx), st, lo| {
+            for (val, trail) in [("kkk", ""), ("\u{09AC}\u{09BF}\u{09B8}\u{09AE}\u{09BF}\u{09B2}\u{09CD}\u{09B2}\u{09BE}\u{09B9}", ""), ("amader", "."), ("tOmar", "!")] {
+                let c = Case { text: format!("{key}{trail}"), optidx: *optidx, user: vec![(key.clone(), val.to_string())] };
+                run_case(run, &c, lo, st)?;
+            }
+            Ok(())
+        },
+    );
     run.sharded("generated-words", 16, run.tier.pick(700, 25000), 800, strategy, |_| mk_local(), |c: &Case, st, lo| run_case(run, c, lo, st));
     run.require_label("has-suffix-built", 50);
     run.require_label("has-autocorrect", 50);
